@@ -125,6 +125,15 @@ func (p c20) RunRace(c *core.Ctx) {
 	}
 	sc := RandomGraph(c.Rng, GraphOpts{MinN: 3, MaxN: 12, Types: world.TypesAll, PCycle: 0.5, Chords: 2, ByTypeSlice: 0.2, QualSlice: 0.1, PUnnamed: 0.3})
 	mode := c.Index % 3
+	// components carrying several tag kinds: every scanner that finds something writes the same definition
+	for i := range sc.Nodes {
+		if c.Rng.Intn(2) == 0 {
+			sc.Nodes[i].Cfg = map[string]world.TagSpec{"CfgS": {Tag: "value", Val: "${race.s:dflt}"}, "CfgI": {Tag: "prop", Val: "race.i:7"}}
+			if c.Rng.Intn(2) == 0 {
+				sc.Nodes[i].Cfg["CfgL"] = world.TagSpec{Tag: "prefix", Val: "race.l,required=false"}
+			}
+		}
+	}
 	scanner := &world.FaultScanner{Nm: "verif.racescanner", FailFor: map[string]bool{}}
 	nFail := 0
 	if mode != 2 {
